@@ -264,6 +264,7 @@ type Contract struct {
 	Inline   bool // never use the contract at call sites; verify as root only
 	Lemmas   []Clause
 	Line     int
+	Lets     map[string]*Node
 }
 
 type typeInvariant struct {
@@ -390,6 +391,19 @@ func readContracts(path string) (map[string]*Contract, error) {
 				return nil, err
 			}
 			typeInvariants = append(typeInvariants, typeInvariant{Recv: strings.TrimSpace(rest[:i]), Clause: c})
+		case "let":
+			i := strings.Index(rest, "=")
+			if cur == nil || i < 0 {
+				return nil, fmt.Errorf("%s:%d: bad let", path, ln+1)
+			}
+			n, err := parseSpec(strings.TrimSpace(rest[i+1:]))
+			if err != nil {
+				return nil, fmt.Errorf("%s:%d: %v", path, ln+1, err)
+			}
+			if cur.Lets == nil {
+				cur.Lets = map[string]*Node{}
+			}
+			cur.Lets[strings.TrimSpace(rest[:i])] = n
 		case "pure":
 			cur.Pure = true
 		case "trusted":
